@@ -251,6 +251,33 @@ func (d *dataRun) codecCase(c DataCase, out map[string]interface{}) {
 		return
 	}
 	shape := c.S("shape")
+	if c.S("kind") == "window" {
+		// the destination is arena[4:8]: length 4, capacity 12; the arena is filled with a marker byte
+		arena := bytes.Repeat([]byte{0xAA}, 16)
+		dst := arena[4:8]
+		data := map[string][]byte{"short": []byte("xy"), "fit": []byte("wxyz"), "long": []byte("0123456789"), "empty": {}}[shape]
+		err := cd.Unmarshal(append([]byte(nil), data...), dst)
+		clean := true
+		for i, b := range arena {
+			if (i < 4 || i >= 8) && b != 0xAA {
+				clean = false
+				out["touched"] = i
+				break
+			}
+		}
+		n := len(data)
+		if n > 4 {
+			n = 4
+		}
+		if err == nil && !bytes.Equal(dst[:n], data[:n]) {
+			clean = false
+		}
+		out["equal"] = clean
+		if err != nil && clean {
+			out["err"] = err.Error()
+		}
+		return
+	}
 	// special shapes
 	var typ reflect.Type
 	var gen func() reflect.Value
